@@ -4,6 +4,7 @@ import Heathcliff.Proofs.C02V
 import Heathcliff.Proofs.C02K
 import Heathcliff.Proofs.GenEval
 import Heathcliff.Proofs.GenScalingSpec
+import Heathcliff.Proofs.GenPolySpec
 
 /- Property theorems only (statements verbatim; proofs are the helper lemmas of Heathcliff/Proofs). -/
 namespace HC.C02
@@ -357,5 +358,71 @@ theorem gen_multiply_sub_plain_spec {l : Level} {Q : Nat} {cdp : Array MulOperan
 
 /-- ONE THEOREM (`add_plain`, BFV): `multiply_add_plain` adds Δ(m_i) modulo q_j (= `HC.C01.gen_multiply_add_plain_spec`) -/
 theorem gen_multiply_add_plain_spec : type_of% @HC.gen_multiply_add_plain_spec := @HC.gen_multiply_add_plain_spec
+
+/-! ### translator tie, phase 4b: the coefficient-wise kernels of src/util/polysmallmod.rs (generated into `Heathcliff/Gen/PolyFns.lean`,
+    `HC.GenP`; proofs and full statements in Proofs/GenPoly.lean, Proofs/GenPolySpec.lean; the seven kernels tied in phase 4c
+    (Proofs/GenRns.lean) are not repeated here) -/
+
+/-- `add(comp1, comp2, modulus, result)` = `zipM'` with `addMod` on the first `result.len()` words (body of `rnsAdd`); `assert!` refusal for shorter inputs -/
+theorem gen_poly_add_eq : type_of% @HC.gp_poly_add_eq := @HC.gp_poly_add_eq
+
+/-- `add_inplace` = `zipM'` with `addMod`; refusal when `comp2` is shorter -/
+theorem gen_poly_add_inplace_eq : type_of% @HC.gp_poly_add_inplace_eq := @HC.gp_poly_add_inplace_eq
+
+/-- `sub` = `zipM'` with `subMod` (body of `rnsSub`) -/
+theorem gen_poly_sub_eq : type_of% @HC.gp_poly_sub_eq := @HC.gp_poly_sub_eq
+
+/-- `negate` (zip: stops at the shorter slice, rest of `result` kept) -/
+theorem gen_poly_negate_eq : type_of% @HC.gp_poly_negate_eq := @HC.gp_poly_negate_eq
+
+/-- `negate` for equal lengths = `mapM'` with `negateMod` (body of `rnsNeg`) -/
+theorem gen_poly_negate_model : type_of% @HC.gp_poly_negate_model := @HC.gp_poly_negate_model
+
+/-- `add_scalar` (zip truncation) -/
+theorem gen_poly_add_scalar_eq : type_of% @HC.gp_poly_add_scalar_eq := @HC.gp_poly_add_scalar_eq
+
+/-- `sub_scalar` (zip truncation) -/
+theorem gen_poly_sub_scalar_eq : type_of% @HC.gp_poly_sub_scalar_eq := @HC.gp_poly_sub_scalar_eq
+
+/-- `multiply_scalar` (zip truncation) -/
+theorem gen_poly_multiply_scalar_eq : type_of% @HC.gp_poly_multiply_scalar_eq := @HC.gp_poly_multiply_scalar_eq
+
+/-- `multiply_scalar` for equal lengths = `mapM'` with `mulMod · scalar` (body of `rnsScale`) -/
+theorem gen_poly_multiply_scalar_model : type_of% @HC.gp_poly_multiply_scalar_model := @HC.gp_poly_multiply_scalar_model
+
+/-- `multiply_operand` (zip truncation) -/
+theorem gen_poly_multiply_operand_eq : type_of% @HC.gp_poly_multiply_operand_eq := @HC.gp_poly_multiply_operand_eq
+
+/-- `dyadic_product` = the hand model's `dyadicProduct` (body of `rnsDyadic`); inputs at least as long as `result` (shorter: index panic) -/
+theorem gen_poly_dyadic_product_eq : type_of% @HC.gp_poly_dyadic_product_eq := @HC.gp_poly_dyadic_product_eq
+
+/-- `dyadic_product_inplace` = `dyadicProduct` -/
+theorem gen_poly_dyadic_product_inplace_eq : type_of% @HC.gp_poly_dyadic_product_inplace_eq := @HC.gp_poly_dyadic_product_inplace_eq
+
+/-- `multiply_scalar_p`: the kernel applied to the consecutive `degree`-blocks of the flat buffer, block i with `moduli[i]` -/
+theorem gen_poly_multiply_scalar_p_blocks : type_of% @HC.gp_poly_multiply_scalar_p_blocks := @HC.gp_poly_multiply_scalar_p_blocks
+
+/-- ONE THEOREM (`add`): generated code computes (a + b) mod q coefficient-wise on canonical inputs -/
+theorem gen_poly_add_spec : type_of% @HC.gen_poly_add_spec := @HC.gen_poly_add_spec
+
+/-- ONE THEOREM (`add_inplace`) -/
+theorem gen_poly_add_inplace_spec : type_of% @HC.gen_poly_add_inplace_spec := @HC.gen_poly_add_inplace_spec
+
+/-- ONE THEOREM (`sub`): (a − b) mod q -/
+theorem gen_poly_sub_spec : type_of% @HC.gen_poly_sub_spec := @HC.gen_poly_sub_spec
+
+/-- ONE THEOREM (`negate_inplace`): (−a) mod q -/
+theorem gen_poly_negate_inplace_spec : type_of% @HC.gen_poly_negate_inplace_spec := @HC.gen_poly_negate_inplace_spec
+
+/-- ONE THEOREM (`multiply_scalar`): a·s mod q -/
+theorem gen_poly_multiply_scalar_spec : type_of% @HC.gen_poly_multiply_scalar_spec := @HC.gen_poly_multiply_scalar_spec
+
+/-- ONE THEOREM (`dyadic_product`): a·b mod q -/
+theorem gen_poly_dyadic_product_spec : type_of% @HC.gen_poly_dyadic_product_spec := @HC.gen_poly_dyadic_product_spec
+
+/-- non-vacuity of the hypotheses of `gen_poly_add_spec`: q = 97, (5, 96) + (95, 3) = (3, 2) -/
+example : GenP.poly_add [5, 96] [95, 3] gz_m97 [0, 0] = .ok [3, 2] := by
+  have h := HC.gen_poly_add_spec gz_m97_wf [5, 96] [95, 3] [0, 0] (by decide) (by decide) (by decide) (by decide)
+  exact h
 
 end HC.C02
